@@ -85,7 +85,7 @@ def showState (s : State) : String :=
   let ds := s.deps.mergeSort (fun a b => a.pid < b.pid || (a.pid == b.pid && a.who ≤ b.who))
   let vs := s.votes.mergeSort (fun a b => a.pid < b.pid || (a.pid == b.pid && a.voter ≤ b.voter))
   let cs := (s.custom.map fun c => (String.ofList c.1, c.2)).mergeSort (fun a b => a.1 ≤ b.1)
-  s!"gov={s.gov} props=[{";".intercalate (ps.map showProp)}] deps=[{";".intercalate (ds.map fun d => s!"{d.pid}/{d.who}={d.amt}")}]" ++
+  s!"nid={s.nextId} gov={s.gov} props=[{";".intercalate (ps.map showProp)}] deps=[{";".intercalate (ds.map fun d => s!"{d.pid}/{d.who}={d.amt}")}]" ++
   s!" inact=[{showQ s.inactive}] act=[{showQ s.active}] bal=[{";".intercalate ([0, 1, 2, 3].map fun a => s!"{a}={getBal s.bal a}")}]" ++
   s!" kv={getKv s.kv 0},{getKv s.kv 1},{getKv s.kv 2},{getKv s.kv 3}" ++
   s!" cust=[{";".intercalate (cs.map fun c => s!"{c.1}={c.2.depositRatio}/{c.2.votingPeriod}/{c.2.quorum}")}]" ++
